@@ -54,5 +54,14 @@ def members(tier, kinds=("family", "rich")):
     return out
 
 
+def members_bounded(tier, every=4):
+    """The quick members, plus (other tiers) every `every`-th member of the full two-item family."""
+    base = members("quick")
+    if tier == "quick":
+        return base
+    names = {m[0] for m in base}
+    return base + [m for i, m in enumerate(members(tier)) if m[0] not in names and i % every == 0]
+
+
 def text_of(events):
     return H.render_events(events)
